@@ -21,6 +21,7 @@ from modelx.core.errors import DeletedObjectError
 from modelx.core.base import null_impl
 
 CFG = {
+    "enum_always": ("del_space", "del_cells", "remove_bases", "del_ref", "del_mref"),
     "weights": {"new_space": 2.0, "del_space": 2.0, "new_cells": 3.0, "set_formula": 1.0, "del_cells": 3.0,
                 "rename_cells": 0.3, "add_bases": 2.0, "remove_bases": 2.5, "set_ref": 1.5, "del_ref": 1.5,
                 "set_mref": 0.3, "eval": 3.0, "evalall": 0.6, "bad": 0.3},
@@ -62,8 +63,10 @@ class H(S.Hooks):
         self.handles = []   # (obj, path, kind, name, derived)
         self.k = 0
         self.objrefs = False
+        self.pre = None
 
     def before(self, live, ops, k, op, stats):
+        self.pre = self.snapshot(live) if op[0] not in ("eval", "evalall") else None
         if op[0] == "set_ref" and isinstance(op[3], (list, tuple)):
             self.objrefs = True     # orphaned evaluation through a dangling reference is a recorded finding
         # take handles now and then (deterministic: every third operation)
@@ -76,11 +79,66 @@ class H(S.Hooks):
                     if not any(h[0] is c for h in self.handles) and len(self.handles) < 24:
                         self.handles.append((c, path, "cells", cn, bool(c._is_derived())))
 
+    def snapshot(self, live):
+        """ids of the live implementation objects and the current dependency edges"""
+        impls = {}
+
+        def add_tree(impl):
+            impls[id(impl)] = impl
+            for c in impl.cells.values():
+                impls[id(c)] = c
+            for it in impl.param_spaces.values():
+                add_tree(it)
+            for ch in impl.named_spaces.values():
+                add_tree(ch)
+        for sp in live.m._impl.spaces.values():
+            add_tree(sp)
+        g = live.m._impl.tracegraph
+        return impls, list(g.edges), list(g.nodes)
+
     def after(self, live, ops, k, op, result, out, stats):
         if op[0] in ("eval", "evalall"):
             return
         hist = S.hist_json(ops, k)
         m = live.m
+        # values computed from a deleted object must be gone right after the deletion (before any
+        # re-evaluation): dependents, in the graph as it was before the operation, of the nodes of
+        # objects that no longer exist
+        if self.pre is not None:
+            impls0, edges0, nodes0 = self.pre
+            impls1, _, _ = self.snapshot(live)
+            dead = set(impls0) - set(impls1)
+            if dead:
+                succ = collections.defaultdict(list)
+                for a, b in edges0:
+                    succ[(id(a[0]),) + tuple(a[1:])].append(b)
+                todo = [n for n in nodes0 if id(n[0]) in dead]
+                seen = set()
+                while todo:
+                    n = todo.pop()
+                    key = (id(n[0]),) + tuple(n[1:])
+                    if key in seen:
+                        continue
+                    seen.add(key)
+                    todo += succ.get(key, [])
+                    if id(n[0]) in impls1 and len(n) == 2 and hasattr(n[0], "data") and n[1] in n[0].data \
+                            and n[1] not in n[0].input_keys:
+                        out.fail("%s%r still holds the value computed from an object deleted by %s" % (
+                            n[0].get_fullname() if hasattr(n[0], "get_fullname") else n[0].name, n[1], op[0]), hist)
+                        break
+                stats["deletions_examined"] += 1
+        # every derived member still has a definer (nothing derived from a deleted base survives)
+        defs = W.definitions(m)
+        exp = W.expected_members(defs, W.python_c3(defs))
+        desc = W.describe(m, with_values=False)
+        for p, sd in desc["spaces"].items():
+            if exp.get(p) is None:
+                continue
+            for kind in ("cells", "refs"):
+                for n, v in sd[kind].items():
+                    if v["derived"] and n not in exp[p][kind]:
+                        out.fail("%s.%s is a derived member although no base defines it any more (after %s)" % (
+                            p, n, op[0]), hist)
         alive_impls = set()
 
         def add_tree(impl):
